@@ -39,7 +39,21 @@ inductive GCall
                              -- `with_recorder` emits while the outer dispatch is still on the stack
   | emitLocalPanic (l : Nat) -- an emission inside `with_local_recorder(&l, ..)` whose recorder panics; the panic
                              -- unwinds through `with_recorder` AND the local scope and is caught outside it
+  | installIn (r : Nat)      -- round 7: an INSTALLATION made from inside a dispatched call:
+                             -- `with_recorder(|rec| { rec.…; set_global_recorder(r); <an emission> })` — the closure
+                             -- runs whatever the outer lookup found (also on the no-op recorder), installs while the
+                             -- outer dispatch is on the stack and emits again: lookup, `set`, lookup
+  | installLocal (l r : Nat) -- round 7: `with_local_recorder(&l, || { set_global_recorder(r); <an emission> })`:
+                             -- the installation goes to the GLOBAL cell whatever the local slot holds (the layer
+                             -- forwards, `src_global_layer`), the emission to the local recorder (no lookup)
   deriving Repr, DecidableEq
+
+/-- does the call (try to) install a global recorder -/
+def GCall.installs : GCall → Bool
+  | .install _ => true
+  | .installIn _ => true
+  | .installLocal _ _ => true
+  | _ => false
 
 /-- where an emission is dispatched -/
 inductive Target
@@ -60,6 +74,11 @@ inductive GRes
   | installed | rejected (r : Nat) | sent (t : Target)
   | unwound (t : Target)          -- dispatched to `t`, whose method panicked; caught by the caller
   | sentAll (ts : List Target)    -- outer emission first, then the emissions made from inside it
+  | closureInstall (outer : Target) (inst : Res) (inner : Target)
+                                  -- `installIn`: where the outer emission went, what `set` answered (`ok`/`err r`),
+                                  -- where the emission made after it (same closure) went
+  | scopedInstall (inst : Res) (l : Nat)
+                                  -- `installLocal`: what `set` answered, and the emission went to local recorder `l`
   deriving Repr, DecidableEq
 
 /-- the calls a thread makes on the global cell -/
@@ -72,6 +91,8 @@ def toCell : List GCall → List Call
   | .emitNested k :: cs => .load :: (List.replicate k .nested ++ toCell cs)
   | .emitIn :: cs => .load :: .load :: toCell cs
   | .emitLocalPanic _ :: cs => toCell cs
+  | .installIn r :: cs => .load :: .set r :: .load :: toCell cs
+  | .installLocal _ r :: cs => .set r :: toCell cs
 
 /-- observation of a completed cell call (no local recorder in scope) -/
 def ofRes : Res → GRes
@@ -104,6 +125,11 @@ def observe : List GCall → List Res → List GRes
     .sentAll ((takeNested (k + 1) (r :: rs)).1.map (dispatch none)) :: observe cs (takeNested (k + 1) (r :: rs)).2
   | .emitIn :: _, [_] => []
   | .emitIn :: cs, r₁ :: r₂ :: rs => .sentAll [dispatch none r₁, dispatch none r₂] :: observe cs rs
+  | .installIn _ :: _, [_] => []
+  | .installIn _ :: _, [_, _] => []
+  | .installIn _ :: cs, r₁ :: r₂ :: r₃ :: rs =>
+    .closureInstall (dispatch none r₁) r₂ (dispatch none r₃) :: observe cs rs
+  | .installLocal l _ :: cs, r :: rs => .scopedInstall r l :: observe cs rs
   | _ :: cs, r :: rs => ofRes r :: observe cs rs
 
 /-- the process: every thread's API program projected onto the cell machine -/
